@@ -258,7 +258,7 @@ theorem toBool_ofBool (b : Bool) : (B3.ofBool b).toBool? = some b := by cases b 
 theorem stepObs_views (c : Case) (st st' : St) (op : Op) :
     (stepObs c st st' op).run = B3.ofBool st'.run ∧ (stepObs c st st' op).disabled = B3.ofBool (!st'.run) := by
   cases op <;> simp only [stepObs, mkStep, and_self]
-  split <;> simp
+  all_goals (repeat' split) <;> simp
 
 theorem views_steps (stf : St → Op → St) (c : Case) (st : St) (ops : List Op) :
     ∀ s ∈ runOpsWith stf c st ops, ∃ b : Bool, s.run = B3.ofBool b ∧ s.disabled = B3.ofBool (!b) := by
@@ -346,7 +346,7 @@ theorem disabled_frame (body : List Op) :
           refine ih d0 d' _ p0 base hb (by simp [stepSt, hs]) (by simpa using hp) ?_ ?_ hno'
           · simp [stepSt, hs, hall v List.mem_cons_self]
           · exact fun w hw => hall w (List.mem_cons_of_mem _ hw)
-    | getDisabled | getRun | construct | validate | assign _ =>
+    | getDisabled | getRun | construct _ | validate _ | assign _ _ =>
       simp only [Op.isEnter, Op.isExit, Bool.false_eq_true, if_false] at hb
       exact ih d d' _ p base hb (by simp [stepSt, hs]) hp (by simp [stepSt, hr]) hall hno'
 
@@ -474,10 +474,10 @@ theorem opens_frame (body : List (Op × Bool)) :
       · simp only [he, hx] at hb
         exact ih d d' _ q base hb (by simp [opens, he, hx, hs]) hq
 
-theorem stepOk_model (c : Case) (hI : C02.wf (initCase c.cls true c.fault) = true) (st : St)
+theorem stepOk_model (c : Case) (hI : ∀ cls ∈ c.classes, C02.wf (initCase cls true c.fault) = true) (st : St)
     (hist : List (Op × Bool)) (op : Op) (hs : st.stack = opens 0 hist)
     (hx : op.isExit = true → st.stack ≠ [])
-    (ha : ∀ i, op = .assign i → i < c.cls.fields.length) :
+    (ha : opOk c op = true) :
     stepOk c hist st.run op (stepObs c st (stepSt st op) op) = true := by
   have hv := stepObs_views c st (stepSt st op) op
   unfold stepOk
@@ -502,23 +502,33 @@ theorem stepOk_model (c : Case) (hI : C02.wf (initCase c.cls true c.fault) = tru
     | cons p rest =>
       have : entryState 0 hist = some p := by rw [entryState_opens, ← hs]; rfl
       simp [stepObs, mkStep, stepSt, this]
-  | construct =>
-    have h := construct_spec c.cls run c.fault hI
-    simp only [runOutcome, stepObs, mkStep, stepSt, h.1, h.2, beq_self_eq_true, Bool.and_self]
-  | assign i =>
-    have hi := ha i rfl
-    have hf : c.cls.fields[i]? = some c.cls.fields[i] := List.getElem?_eq_getElem hi
-    simp only [hf, runOutcome, stepObs, mkStep, stepSt, runAssign_eq, events_of_run, exc_of_run,
-      beq_self_eq_true, Bool.and_self]
-  | validate =>
-    simp only [runOutcome, stepObs, mkStep, stepSt, runValidate_eq, events_of_run, exc_of_run,
-      beq_self_eq_true, Bool.and_self]
+  | construct k =>
+    cases hk : c.classes[k]? with
+    | none => simp [opOk, hk] at ha
+    | some cls =>
+      have h := construct_spec cls run c.fault (hI cls (List.mem_of_getElem? hk))
+      simp only [runOutcome, stepObs, hk, mkStep, stepSt, h.1, h.2, beq_self_eq_true, Bool.and_self]
+  | assign k i =>
+    cases hk : c.classes[k]? with
+    | none => simp [opOk, hk] at ha
+    | some cls =>
+      cases hf : cls.fields[i]? with
+      | none => simp [opOk, hk, hf] at ha
+      | some f =>
+        simp only [hk, hf, runOutcome, stepObs, mkStep, stepSt, runAssign_eq, events_of_run, exc_of_run,
+          beq_self_eq_true, Bool.and_self]
+  | validate k =>
+    cases hk : c.classes[k]? with
+    | none => simp [opOk, hk] at ha
+    | some cls =>
+      simp only [hk, runOutcome, stepObs, mkStep, stepSt, runValidate_eq, events_of_run, exc_of_run,
+        beq_self_eq_true, Bool.and_self]
 
-theorem specGo_model (c : Case) (hI : C02.wf (initCase c.cls true c.fault) = true) :
+theorem specGo_model (c : Case) (hI : ∀ cls ∈ c.classes, C02.wf (initCase cls true c.fault) = true) :
     ∀ (ops : List Op) (st : St) (hist : List (Op × Bool)),
       st.stack = opens 0 hist →
       (bal st.stack.length ops).isSome = true →
-      (∀ op ∈ ops, ∀ i, op = .assign i → i < c.cls.fields.length) →
+      (∀ op ∈ ops, opOk c op = true) →
       specGo c hist st.run ops (runOpsWith stepSt c st ops) = true := by
   intro ops
   induction ops with
@@ -530,7 +540,7 @@ theorem specGo_model (c : Case) (hI : C02.wf (initCase c.cls true c.fault) = tru
       intro hx hnil
       have he : op.isEnter = false := by cases op <;> simp [Op.isExit] at hx <;> rfl
       simp [bal, hx, he, hnil] at hb
-    refine ⟨stepOk_model c hI st hist op hs hx (fun i hi => ha op List.mem_cons_self i hi), ?_⟩
+    refine ⟨stepOk_model c hI st hist op hs hx (ha op List.mem_cons_self), ?_⟩
     rw [(stepObs_views c st (stepSt st op) op).1, toBool_ofBool]
     refine ih (stepSt st op) ((op, st.run) :: hist) ?_ ?_ (fun o ho => ha o (List.mem_cons_of_mem _ ho))
     · -- the saved entry states are the ones the bracket counting finds
